@@ -108,6 +108,9 @@ func outputTupleDir(v rel.Value, dir string, fs afero.Fs, dryRun bool) error {
 			return fmt.Errorf("dir output dict key must be a non-empty string")
 		}
 		subpath := path.Join(dir, name.String())
+		if !isBeneath(dir, subpath) {
+			return fmt.Errorf("dir output entry %q is not inside the output directory", name.String())
+		}
 		switch content := v.(type) {
 		case rel.Tuple:
 			if err := configureOutput(content, subpath, fs, dryRun); err != nil {
@@ -133,6 +136,17 @@ func outputTupleDir(v rel.Value, dir string, fs afero.Fs, dryRun bool) error {
 		}
 	}
 	return nil
+}
+
+// isBeneath reports whether the cleaned path sub lies strictly inside directory dir.
+func isBeneath(dir, sub string) bool {
+	switch dir = path.Clean(dir); dir {
+	case ".":
+		return sub != "." && sub != ".." && !strings.HasPrefix(sub, "../") && !path.IsAbs(sub)
+	case "/":
+		return sub != "/"
+	}
+	return strings.HasPrefix(sub, dir+"/")
 }
 
 func outputFile(content rel.Value, path string, fs afero.Fs, dryRun bool) error {
